@@ -77,6 +77,9 @@ func pickGrammar0(r *rand.Rand, idx int, usable bool, cfg gen.RandCfg) *spec.Gra
 	if usable && idx%10 == 8 {
 		return gen.Optionals(r)
 	}
+	if usable && idx%20 == 13 {
+		return gen.Aliases(r)
+	}
 	if usable && idx%5 == 3 {
 		return gen.Contexts(r)
 	}
